@@ -58,6 +58,8 @@ pub struct GenCfg {
     pub plural_locales_only: bool,
     /// surplus keys in non-default locales (percent per locale)
     pub p_surplus: u32,
+    /// percent: allow a key's count variable to be typed differently in another locale (an error)
+    pub p_count_conflict: u32,
 }
 
 impl Default for GenCfg {
@@ -84,6 +86,7 @@ impl Default for GenCfg {
             ws_in_closing_tag: true,
             plural_locales_only: true,
             p_surplus: 0,
+            p_count_conflict: 0,
         }
     }
 }
@@ -295,7 +298,12 @@ impl<'t> Gen<'t> {
     }
 
     pub fn range_decl(&mut self, tag: &str, rich_bodies: bool) -> RangeDecl {
-        let ty = ALL_RANGE_TYS[self.t.weighted(&[6, 1, 1, 1, 1, 1, 1, 1, 1, 1])];
+        self.range_decl_ty(tag, rich_bodies, None)
+    }
+
+    pub fn range_decl_ty(&mut self, tag: &str, rich_bodies: bool, force_ty: Option<RangeTy>) -> RangeDecl {
+        let drawn = ALL_RANGE_TYS[self.t.weighted(&[6, 1, 1, 1, 1, 1, 1, 1, 1, 1])];
+        let ty = force_ty.unwrap_or(drawn);
         let ty_written = ty != RangeTy::I32 || self.t.coin();
         let nb = self.t.range(0, 4);
         let mut branches = vec![];
@@ -546,7 +554,7 @@ impl<'t> Gen<'t> {
                         Value::Plural(_) => Kind::Plural,
                         _ => Kind::Lit,
                     };
-                    let kind = if r >= 100 - self.cfg.p_kind_varies {
+                    let mut kind = if r >= 100 - self.cfg.p_kind_varies {
                         // any non-subkey kind
                         let mut w = self.cfg.w_kinds;
                         w[5] = 0;
@@ -555,7 +563,25 @@ impl<'t> Gen<'t> {
                     } else {
                         same_kind
                     };
-                    self.value_of_kind(kind, &t2, depth, names)
+                    // keep the count variable consistent across locales (one range type, or plural),
+                    // unless a conflict is asked for
+                    let conflict = (self.t.pick(100) as u32) < self.cfg.p_count_conflict;
+                    if !conflict {
+                        match (other, kind) {
+                            (Value::Range(_), Kind::Plural) => kind = Kind::Range,
+                            (Value::Plural(_), Kind::Range) => kind = Kind::Plural,
+                            (Value::Range(_), _) | (Value::Plural(_), _) => {}
+                            (_, Kind::Range) | (_, Kind::Plural) => kind = Kind::Interp,
+                            _ => {}
+                        }
+                    }
+                    match (other, kind) {
+                        (Value::Range(br), Kind::Range) if !conflict => {
+                            let rich = self.t.coin();
+                            Value::Range(self.range_decl_ty(&t2, rich, Some(br.ty)))
+                        }
+                        _ => self.value_of_kind(kind, &t2, depth, names),
+                    }
                 }
             };
             o.push((k.clone(), nv));
@@ -692,7 +718,20 @@ impl<'t> Gen<'t> {
                             }
                         }
                     }
-                    let fk = self.fk_to(tns.clone(), path.clone(), &tv, &tag);
+                    // variables the target exposes once its own references are substituted
+                    let tvars: Vec<String> = {
+                        let sem = crate::sem::Sem::new(p);
+                        let eff = sem.effective_locale(tns.as_deref(), loc, path);
+                        match sem.resolve_at(tns.as_deref(), &eff, path) {
+                            Ok(r) => {
+                                let mut sig = crate::sem::Signature::default();
+                                crate::sem::signature(&r, &mut sig);
+                                sig.vars.into_iter().filter(|v| !sig.counts.contains_key(v)).collect()
+                            }
+                            Err(_) => vec![],
+                        }
+                    };
+                    let fk = self.fk_to(tns.clone(), path.clone(), &tv, &tvars, &tag);
                     pieces.push(Piece::Fk(fk));
                 }
                 if self.t.coin() {
@@ -715,11 +754,11 @@ impl<'t> Gen<'t> {
     }
 
     /// a reference to `target` (value in the same locale) with arguments for some of its variables
-    pub fn fk_to(&mut self, ns: Option<String>, path: Vec<String>, target: &Value, tag: &str) -> Fk {
+    pub fn fk_to(&mut self, ns: Option<String>, path: Vec<String>, target: &Value, target_vars: &[String], tag: &str) -> Fk {
         let mut args: Vec<(String, Arg)> = vec![];
         let allow_args = self.cfg.fk_args_through_chain || !value_contains_fk(target);
         if allow_args {
-            for v in value_vars(target) {
+            for v in target_vars.iter().cloned() {
                 if v == "count" {
                     continue;
                 }
